@@ -357,6 +357,10 @@ pub const IFDATA_PAYLOADS: &[(&str, &str)] = &[
         ("vx", "VX 1"),
         ("xcp-seg", "XCP /begin SEG 1 0x2 3 -4 0x5 1.5 2.5e10 \"txt\" /end SEG"),
         ("xcp-flag-rep", "XCP FLAG REP 1 REP 0x10"),
+        // a float member beyond the range of f32 (finite as f64), the largest f32 / f64
+        ("xcp-seg-float-beyond-f32", "XCP /begin SEG 1 2 3 4 5 3.5e38 2.5 \"t\" /end SEG"),
+        ("xcp-seg-float-negative-beyond-f32", "XCP /begin SEG 1 2 3 4 5 -1e39 2.5 \"t\" /end SEG"),
+        ("xcp-seg-float-max-f32", "XCP /begin SEG 1 2 3 4 5 3.4028234e38 1.7976931348623157e308 \"t\" /end SEG"),
         ("xcp-nest", "XCP /begin NEST A -3 /begin B \"s\" y /end B /end NEST"),
         ("unknown-simple", "ZZZ 1 2.5 \"s\" ident"),
         ("unknown-nested", "ZZZ /begin Q 1 /begin R \"x\" /end R 2 /end Q"),
@@ -508,6 +512,10 @@ pub fn build_cases(g: &Grammar, thorough: bool) -> Vec<Case> {
                 out.push(Case { label: format!("RECORD_LAYOUT with {} x {} at positions {positions:?}", positions.len(), r.tag), class: format!("position-order:{}:{}", r.tag, arr.split('-').next().unwrap()), text: doc.text(), spec: None, parts: vec![] });
             }
         }
+    }
+    for (label, text) in crate::c02::position_docs(g).into_iter().chain(crate::c02::position_mixed_docs(g)) {
+        let class = format!("position-order:{}", label.split(':').nth(1).unwrap_or(""));
+        out.push(Case { label, class, text, spec: None, parts: vec![] });
     }
     // layout at every gap of every carrier
     for d in &carriers {
